@@ -79,8 +79,48 @@ func TestC11(t *testing.T) {
 		fail := func(class, format string, args ...interface{}) {
 			kit.Fail(t, "C11", class, kase(), format, args...)
 		}
+		var addBystander func()
+		// a bystander: another row of the same table whose single update is merged into the
+		// same aggregate at a drawn point; whatever happens to the main row must leave it alone
+		const uuidB = "00000000-0000-4000-8000-000000000002"
+		bAt := -1
+		var bRow1 kit.Row
+		if rapid.Bool().Draw(t, "bystander") {
+			bRow0 := kit.GenRow(t, tb, pool, true)
+			c := tb.Cols[rapid.IntRange(0, len(tb.Cols)-1).Draw(t, "bcol")]
+			for tries := 0; tries < 6; tries++ {
+				if v := kit.GenVal(t, c, pool); !kit.EqVal(v, bRow0[c.Name]) {
+					bRow1 = bRow0.Clone()
+					bRow1[c.Name] = v
+					break
+				}
+			}
+			if bRow1 != nil {
+				bAt = rapid.IntRange(0, n-1).Draw(t, "bat")
+				bop := kit.Op{Op: "update", Table: tb.Name, Where: []kit.Cond{{Col: "_uuid", Fn: "==", Val: kit.Scalar(kit.UUID(uuidB))}}, Row: kit.Row{c.Name: bRow1[c.Name]}}
+				bdec, err := kit.DecodeOps(s, []kit.Op{bop})
+				if err != nil {
+					t.Fatalf("harness: %v", err)
+				}
+				addBystander = func() {
+					var ub updates.ModelUpdates
+					if err := ub.AddOperation(w.DBModel, tb.Name, uuidB, w.ModelFromRow(tb.Name, uuidB, bRow0), &bdec[0]); err != nil {
+						fail("aggregate.error", "AddOperation for the bystander row failed: %v", err)
+					}
+					if err := agg.Merge(w.DBModel, ub); err != nil {
+						fail("aggregate.error", "Merge of the bystander row's update failed: %v", err)
+					}
+				}
+			}
+		}
+		bystanderIn := false
 		deleted := false
 		for i := 0; i < n && !deleted; i++ {
+			if i == bAt {
+				addBystander()
+				bystanderIn = true
+				kit.Label("C11", "bystander-row-in-aggregate")
+			}
 			var op kit.Op
 			next := kit.Row(nil)
 			switch {
@@ -191,18 +231,47 @@ func TestC11(t *testing.T) {
 			}
 			cur = next
 
+			// the bystander's update survives whatever was merged for the main row
+			if bystanderIn {
+				bm := agg.GetModel(tb.Name, uuidB)
+				if bm == nil {
+					fail("aggregate.other-row-lost", "after op %d on the main row the aggregate no longer holds the update of another row of the table", i)
+				}
+				if _, br, err := w.RowFromModel(tb.Name, bm); err != nil || rowStr(br) != rowStr(bRow1) {
+					fail("aggregate.other-row-changed", "after op %d on the main row the aggregated update of another row reads %s, want %s (%v)", i, rowStr(br), rowStr(bRow1), err)
+				}
+				found := false
+				_ = agg.ForEachRowUpdate(tb.Name, func(u string, r ovsdb.RowUpdate2) error {
+					found = found || (u == uuidB && r.Modify != nil)
+					return nil
+				})
+				if !found {
+					fail("aggregate.other-row-lost", "after op %d on the main row the aggregate lists no modify for the other row", i)
+				}
+			}
 			// ---- laws on the aggregate after every step from the second on ----
 			if i == 0 {
 				continue
 			}
 			last := cur
 			var rus []ovsdb.RowUpdate2
-			_ = agg.ForEachRowUpdate(tb.Name, func(u string, r ovsdb.RowUpdate2) error { rus = append(rus, r); return nil })
+			_ = agg.ForEachRowUpdate(tb.Name, func(u string, r ovsdb.RowUpdate2) error {
+				if u == uuid {
+					rus = append(rus, r)
+				}
+				return nil
+			})
 			var olds, news []model.Model
-			_ = agg.ForEachModelUpdate(tb.Name, func(u string, o, nw model.Model) error { olds = append(olds, o); news = append(news, nw); return nil })
+			_ = agg.ForEachModelUpdate(tb.Name, func(u string, o, nw model.Model) error {
+				if u == uuid {
+					olds = append(olds, o)
+					news = append(news, nw)
+				}
+				return nil
+			})
 			same := first != nil && last != nil && first.Key() == last.Key()
 			if (first == nil && last == nil) || same {
-				if len(agg.GetUpdatedTables()) != 0 || len(rus) != 0 {
+				if (!bystanderIn && len(agg.GetUpdatedTables()) != 0) || len(rus) != 0 {
 					fail("aggregate.not-empty", "the row ends as it began (%v -> %v) but the aggregate still holds an update: %+v", rowStr(first), rowStr(last), rus)
 				}
 				if agg.GetModel(tb.Name, uuid) != nil && last == nil {
